@@ -33,7 +33,7 @@ META = {
             "history was replayed to the end with >=1 checked delivery and >=1 match that had to choose among >=2 pending opposite requests",
     "assumptions": ["the order of the logged call lines is the order in which maestro handled the simcalls (sequential kernel, "
                     "contexts/nthreads:1)"],
-    "ready": False,
+    "ready": True,
 }
 
 PLAT = {"nh": 3, "links": [[1e7, 1e-4]]}
@@ -81,7 +81,7 @@ def _on_result(ctx):
 
 
 def run(ctx):
-    n = ctx.size(quick=700, thorough=16000)
+    n = ctx.size(quick=700, thorough=40000)
     bs = 25
     for fl in ("hooks", "asan"):
         M.exe(fl)
